@@ -262,6 +262,9 @@ type FaultSpec struct {
 	// write: error | ignored | einval
 	// exec: exit1 | garbage | nan | inf | -inf | empty | timeout | huge | notexec | badformat | vanished
 	Kind string `json:"kind"`
+	// After > 0 binds the fault to a virtual time: Nth and Count then count the matching operations from that
+	// moment on (a fault that follows an event of the environment)
+	After Dur `json:"after,omitempty"`
 	// OnlyFlags restricts the fault to operations whose stack has these flags ("restore", "upd"...)
 	OnlyFlags string `json:"onlyFlags,omitempty"`
 }
